@@ -68,7 +68,7 @@ class Lexer(object):
         t.lexer.lineno += len(re.findall(r"\r\n|\r|\n", t.value))
         try:
             t.value = t.value.strip("\"'").encode().decode("unicode_escape")
-        except UnicodeDecodeError:
+        except UnicodeError:
             raise SyntaxError("Invalid escape sequence in string {0} at position {1}".format(t.value, t.lexpos))
         return t
 
